@@ -378,44 +378,7 @@ Qed.
 Lemma suffix_has_fuel inf left prec pl ts : parse_suffix (fuel_for ts) inf left prec pl ts <> NoFuel.
 Proof. apply (proj1 (proj2 (suff_all _))). unfold fuel_for. lia. Qed.
 
-(* Every grammatical expression of the fragment (not starting with `let`), given as a whole
-   program, is parsed to the single expression statement with exactly that tree. *)
-Lemma program_of_expression_proof :
-  forall ts t, derives true Expression ts t ->
-    (forall k r, ts = k :: r -> ty k <> tt_LetToken) ->
-    parse_program ts = Ok [SExpr t].
-Proof.
-  intros ts t d Hlet.
-  pose proof (pratt_complete_proof _ _ _ d) as Hp.
-  destruct (derives_spells _ _ _ _ d) as [Hs _].
-  destruct (spells_starts _ _ _ Hs) as [k [rest [E Hst]]]. subst ts.
-  destruct (starts_not_stmt _ Hst) as [Hkw Hsemi].
-  specialize (Hlet k rest eq_refl). apply Z.eqb_neq in Hlet.
-  unfold parse_program. cbn [parse_module length]. cbn [parse_stmt]. rewrite Hsemi, Hkw, Hlet.
-  destruct (is_identifier (ty k)) eqn:Ei.
-  - (* the statement starts with an identifier: label test, then parseIdentifierExpression *)
-    assert (Hpv : pview k = PLeaf (EVar (data k))).
-    { unfold starts_expr in Hst. unfold pview in *.
-      destruct ((ty k =? tt_DivToken) || (ty k =? tt_DivEqToken)); [contradiction|].
-      rewrite Ei in *. cbn [andb] in *.
-      destruct (negb (ty k =? tt_AsyncToken)) eqn:Ea; [reflexivity|].
-      apply negb_false_iff in Ea. apply Z.eqb_eq in Ea. rewrite Ea in Hkw. vm_compute in Hkw. discriminate. }
-    unfold parse in Hp. assert (Hf : fuel_for (k :: rest) = S (S (fuel_for rest))) by (unfold fuel_for; cbn [length]; lia).
-    rewrite Hf, parse_expr_step, Hpv in Hp.
-    destruct rest as [|c r].
-    + cbn in Hp. inversion Hp. reflexivity.
-    + assert (Hs2 : parse_suffix (fuel_for (c :: r)) true (EVar (data k)) prec_OpExpr primary (c :: r) = Ok (t, [])).
-      { destruct (mono_suffix (fuel_for (c :: r)) (S (fuel_for (c :: r))) true (EVar (data k)) prec_OpExpr primary (c :: r) ltac:(lia)) as [E|E].
-        - exfalso. exact (suffix_has_fuel _ _ _ _ _ E).
-        - rewrite E. exact Hp. }
-      destruct (ty c =? tt_ColonToken) eqn:Ec.
-      * (* a colon cannot follow: the suffix loop would stop in front of it *)
-        exfalso. apply Z.eqb_eq in Ec. unfold fuel_for in Hs2. cbn [length] in Hs2.
-        replace (2 * S (length r) + 2)%nat with (S (2 * S (length r) + 1))%nat in Hs2 by lia.
-        rewrite parse_suffix_step, Ec in Hs2. rewrite sview_close in Hs2 by (cbn; auto). discriminate.
-      * rewrite Hs2. cbn [rbind stmt_end_ok skip_semi]. reflexivity.
-  - unfold parse in Hp. rewrite Hp. cbn [rbind stmt_end_ok skip_semi]. reflexivity.
-Qed.
+(* (the theorems about parse_stmt / parse_program are in JsExpr/Stmts.v) *)
 
 Example program_of_expression_example :
   parse_program ex_tokens = Ok [SExpr ex_tree] /\ show_stmt (SExpr ex_tree) =
